@@ -23,6 +23,8 @@ func TestC02Regress(t *testing.T) {
 		{"gtab.Read/GPOS", zeroSizeRecordTable(true, 1, 0x0100, 255, 256)},
 		{"gtab.Read/GPOS", zeroSizeRecordTable(true, 1, 0xFF00, 255, 256)},
 		{"gtab.Read/GPOS", zeroSizeRecordTable(false, 1, 0x8000, 65535, 0)},
+		// kern: 20000 subtables of 14 bytes claiming 36000 pairs each (496 KB): 21 s of CPU time before the repair
+		{"kern.Read", overlappingKern(20000, 36000, 14)},
 	}
 	for _, c := range cases {
 		tg := targetByName(c.target)
